@@ -3,7 +3,7 @@
    shipped database, both regenerated from /repo on every run. *)
 From Coq Require Import String ZArith List Bool Lia.
 From SynRBL Require Import Base.Dict Base.Strs Base.ListX Model.Comp Model.Matcher Model.Constraint
-  Proofs.CompProofs Proofs.MatcherProofs Proofs.MatcherTermination Proofs.ConstraintProofs Gen.GenSymbols Gen.GenRules Gen.GenConst.
+  Proofs.CompProofs Proofs.MatcherProofs Proofs.MatcherTermination Proofs.ConstraintProofs Proofs.StrProofs Proofs.Whole Proofs.ConstraintSum Gen.GenSymbols Gen.GenRules Gen.GenConst.
 Import ListNotations.
 Open Scope string_scope. Open Scope Z_scope.
 
@@ -82,6 +82,28 @@ Theorem C08_accepted_has_no_banned : forall ban r p r' p',
   (forall b, In b ban -> contains b p' = false) /\ Nat.even (count ".[H]" r') = true.
 Proof. exact accepted_has_no_banned. Qed.
 
+(* ---- the redox rewrite of accepted completions keeps the imbalance: for every composition oracle cmp that gives [H], [O], water and
+   H2O2 their true compositions, every product side whose first component is a non-empty non-marker and whose markers after a dot are
+   whole components (std), and every accepted entry, products' - reactants' = products - reactants in every element and in charge.
+   (The pinned code violated this for two or more peroxides; repaired in /repo, the model follows the repaired code.) *)
+Theorem C08_constraint_rewrite_keeps_imbalance : forall (cmp : string -> string -> Z),
+  (forall k, cmp "[H]" k = if String.eqb k "H" then 1 else 0) -> (forall k, cmp "[O]" k = if String.eqb k "O" then 1 else 0) ->
+  (forall k, cmp "O" k = if String.eqb k "H" then 2 else if String.eqb k "O" then 1 else 0) ->
+  (forall k, cmp "OO" k = if String.eqb k "H" then 2 else if String.eqb k "O" then 2 else 0) ->
+  forall ban r p r' p', std p -> constraint_fit ban r p = Some (r', p') ->
+  forall k, imbalance cmp r' p' k = imbalance cmp r p k.
+Proof. intros cmp H1 H2 H3 H4 ban r p r' p'. exact (constraint_fit_keeps_imbalance cmp H1 H2 H3 H4 ban r p r' p'). Qed.
+(* non-vacuity: two peroxide completions after acetic acid are a std side, and the repaired rewrite compensates both *)
+Example two_peroxides_std : std "CC(=O)O.OO.OO".
+Proof.
+  exists "CC(=O)O", ["OO"; "OO"]. split; [reflexivity|]. split; [reflexivity|]. split; [discriminate|]. split.
+  - simpl. intros [H|[H|[H|[]]]]; discriminate.
+  - intros m [<-|[<-|[<-|[]]]]; (constructor; [|constructor; [|constructor]]); (split; [reflexivity|]);
+      first [left; reflexivity | right; reflexivity].
+Qed.
+Example two_peroxides_rewritten : constraint_fit ban_atoms_canon "CCO" "CC(=O)O.OO.OO" = Some ("CCO.[H].[H].[H].[H]", "CC(=O)O.O.O.O.O").
+Proof. vm_compute. reflexivity. Qed.
+
 (* non-vacuity: HCl is completed by the shipped database; the hypotheses hold for it *)
 Example hcl : option_map (map render_path) (match_all 20 rules_manager [("H",1);("Cl",1)]) =
   Some [[("[H+]",1);("[Cl-]",1)]].
@@ -101,3 +123,4 @@ Print Assumptions C08_multiplicities_positive.
 Print Assumptions C08_completion_balances.
 Print Assumptions C08_accepted_has_no_banned.
 Print Assumptions C08_solver_terminates.
+Print Assumptions C08_constraint_rewrite_keeps_imbalance.
